@@ -10,7 +10,7 @@ use serde_json::json;
 use std::sync::atomic::AtomicU64;
 use std::sync::Arc;
 
-type SlitOp = (u8, u8, u8);
+type SlitOp = (u16, u16, u8);
 
 fn slit_real(l: u32, ops: &[SlitOp]) -> Result<Vec<u8>, String> {
     catch(|| {
@@ -66,8 +66,8 @@ fn slit_closure(ctx: &'static Ctx, l: u32, vals: &'static [u8], cap: usize) -> (
     let m = FnModel::<Vec<u8>, Vec<SlitOp>, SlitOp> {
         init: vec![Node { key: init_img, aux: vec![], bad: !ok0 }],
         actions: Arc::new(move |_s, out| {
-            for a in 0..l as u8 {
-                for b in 0..l as u8 {
+            for a in 0..l as u16 {
+                for b in 0..l as u16 {
                     for v in vals {
                         out.push((a, b, *v));
                     }
@@ -432,19 +432,20 @@ pub fn run(ctx: &'static Ctx) {
         // SLIT: every L up to the grid size: all cells of the upper triangle assigned distinct values (both argument orders), then compared
         let lmax: u32 = if quick { 40 } else { 100 };
         let m = AtomicU64::new(0);
-        (1..=lmax).into_par_iter().for_each(|l| {
+        let ls: Vec<u32> = (1..=lmax).chain([128, 200, 254, 255, 256, 257, 300, 400]).collect();
+        ls.into_par_iter().for_each(|l| {
             for order in 0..2 {
                 let mut ops: Vec<SlitOp> = vec![];
                 for a in 0..l {
                     for b in a..l {
                         let v = (11 + (a * 7 + b * 3) % 240) as u8;
-                        ops.push(if order == 0 { (a as u8, b as u8, v) } else { (b as u8, a as u8, v) });
+                        ops.push(if order == 0 { (a as u16, b as u16, v) } else { (b as u16, a as u16, v) });
                     }
                 }
                 if order == 1 {
                     ops.reverse();
                     ops.push((0, 0, 10));
-                    ops.push(((l - 1) as u8, 0, 0xfe));
+                    ops.push(((l - 1) as u16, 0, 0xfe));
                 }
                 m.fetch_add(1, std::sync::atomic::Ordering::Relaxed);
                 ctx.tr(ops.len() as u64);
@@ -466,7 +467,7 @@ pub fn run(ctx: &'static Ctx) {
             }
         });
         ctx.st(m.load(std::sync::atomic::Ordering::Relaxed));
-        ctx.engine("E3.slit-size-sweep", json!({"L": format!("1..={}", lmax), "programs": m.load(std::sync::atomic::Ordering::Relaxed)}));
+        ctx.engine("E3.slit-size-sweep", json!({"L": format!("1..={} and 128, 200, 254..257, 300, 400", lmax), "programs": m.load(std::sync::atomic::Ordering::Relaxed)}));
     }
     ctx.force_sample(json!({"slit": {"L": 3, "ops": [[1, 1, 20], [0, 2, 255], [2, 0, 10]]}, "expected_matrix": "0a 0a 0a / 0a 14 0a / 0a 0a 0a"}));
     ctx.force_sample(json!({"hmat": {"shape": [3, 2], "ops": ["Cell(2,1,0x1234)", "Cell(1,0,0)"]}, "expected_cells": "ffff ffff 0000 ffff ffff 1234"}));
